@@ -1,10 +1,124 @@
 /- driver ops for property C17 (model side of the correspondence) -/
 import Rsa.Core.Wire
+import Rsa.Core.Transform
 
-open Lean Rsa.Wire
+open Lean Rsa.Wire Rsa.Transform
 
 namespace Rsa.Drv.C17
 
-def handle : Handler := fun _op _j => none
+def asMethod (s : String) : R RankMethod :=
+  match s with
+  | "average" => pure .average
+  | "min" => pure .min
+  | "max" => pure .max
+  | "dense" => pure .dense
+  | "ordinal" => pure .ordinal
+  | m => throw s!"unknown rank method {m}"
+
+def asKind (s : String) : R Kind :=
+  match s with
+  | "rank" => pure .rank
+  | "sqrt" => pure .sqrt
+  | "positive" => pure .positive
+  | "custom" => pure .custom
+  | "minmax" => pure .minmax
+  | "geotop" => pure .geotop
+  | "geodesic" => pure .geodesic
+  | k => throw s!"unknown transform {k}"
+
+/-- `inf` travels as the string "inf", NaN as `null` -/
+def ofDist : Option Rat → Json
+  | some r => ofRat r
+  | none => Json.str "inf"
+
+def cumsum : List Rat → List Rat
+  | l => (l.foldl (fun (acc : Rat × List Rat) a => (acc.1 + a, (acc.1 + a) :: acc.2)) (0, [])).2.reverse
+
+/-- the menu of functions the engine passes to `transform(rdms, fun)` -/
+def customFn (j : Json) : R (List (List Rat) → List (List Rat)) := do
+  let name ← fld j "name" >>= asStr
+  match name with
+  | "affine" => do
+    let a ← fld j "a" >>= asRat
+    let b ← fld j "b" >>= asRat
+    pure (fun vs => vs.map (fun v => v.map (fun x => a * x + b)))
+  | "cube" => pure (fun vs => vs.map (fun v => v.map (fun x => x * x * x)))
+  | "cumsum" => pure (fun vs => vs.map cumsum)
+  | "revrows" => pure (fun vs => vs.reverse)
+  | f => throw s!"unknown custom function {f}"
+
+/-- the new vectors of one transform, as JSON rows (plus the thresholds for geotop) -/
+def vectorsOf (k : Kind) (j : Json) : R (Json × List (String × Json)) := do
+  let xj ← fld j "x"
+  match k with
+  | .rank => do
+    let m ← fld j "method" >>= asStr >>= asMethod
+    let xs ← asList (asList (asOpt asRat)) xj
+    pure (ofList (ofList (ofOpt ofRat)) (xs.map (rankT m)), [])
+  | .sqrt => do
+    let xs ← asList (asList (asOpt asFloat)) xj
+    pure (ofList (ofList (ofOpt ofFloat)) (xs.map sqrtT), [])
+  | .positive => do
+    let xs ← asList (asList (asOpt asRat)) xj
+    pure (ofList (ofList (ofOpt ofRat)) (xs.map positiveT), [])
+  | .custom => do
+    let xs ← asList (asList asRat) xj
+    let f ← fld j "fn" >>= customFn
+    pure (ofList (ofList ofRat) (customT f xs), [])
+  | .minmax => do
+    let xs ← asList (asList asRat) xj
+    let row (v : List Rat) : Json :=
+      match minmaxT v with
+      | some r => ofList ofRat r
+      | none => ofList (fun _ => Json.null) v
+    pure (ofList row xs, [])
+  | .geotop => do
+    let xs ← asList (asList asRat) xj
+    let low ← fld j "low" >>= asRat
+    let up ← fld j "up" >>= asRat
+    let (lo, hi, rows) := geotopStack low up xs
+    pure (ofList (ofList (ofOpt ofRat)) rows, [("lo", ofRat lo), ("hi", ofRat hi)])
+  | .geodesic => do
+    let xs ← asList (asList asRat) xj
+    let n ← fld j "n" >>= asNat
+    let row (v : List Rat) : Json :=
+      match geodesicT n v with
+      | some r => ofList ofDist r
+      | none => ofList (fun _ => Json.null) v
+    pure (ofList row xs, [])
+
+/-- a whole transform on an RDMs record: vectors, measure name, descriptors -/
+def applyOp (j : Json) : R Json := do
+  let k ← fld j "kind" >>= asStr >>= asKind
+  let measure ← asOpt asStr (fldD j "measure" Json.null)
+  let src : RDMs Json Json Json Json :=
+    { vecs := j, measure := measure, descr := fldD j "descr" Json.null,
+      rdmDescr := fldD j "rdm_descr" Json.null, patDescr := fldD j "pat_descr" Json.null }
+  -- the vector part may fail (bad input): run it first, then package through `applyT`
+  let (vecs, extra) ← vectorsOf k j
+  let out := applyT k (fun _ => vecs) src
+  pure (obj ([("vecs", out.vecs), ("measure", ofOpt Json.str out.measure),
+              ("descr", out.descr), ("rdm_descr", out.rdmDescr), ("pat_descr", out.patDescr)]
+             ++ extra))
+
+/-- shortest-path lengths to every target in an explicit graph (`null` = no edge) -/
+def pathsOp (j : Json) : R Json := do
+  let n ← fld j "n" >>= asNat
+  let w ← fld j "w" >>= asList (asList (asOpt asRat))
+  let wf : Nat → Nat → Option Rat := fun a b => (w.getD a []).getD b none
+  pure (ofList (fun t => ofList ofDist (distTo n wf t)) (List.range n))
+
+/-- `np.quantile` of a list (linear interpolation) -/
+def quantileOp (j : Json) : R Json := do
+  let x ← fld j "x" >>= asList asRat
+  let q ← fld j "q" >>= asRat
+  pure (ofRat (quantileLin (sortAsc x) q))
+
+def handle : Handler := fun op j =>
+  match op with
+  | "c17.apply" => some (applyOp j)
+  | "c17.paths" => some (pathsOp j)
+  | "c17.quantile" => some (quantileOp j)
+  | _ => none
 
 end Rsa.Drv.C17
